@@ -56,3 +56,8 @@ claim("C13", "emission-grammar enumeration + go/parser on every variant, import/
       "Structural: every Go variant of every emitted unit parses and the constant runtime type-checks; imports agree with uses in every variant (client: pairs of decisions, helpers followed); for each codec emitter and each field shape its collector and validator let through, the emitted methods type-check against a stand-in struct with the shape's Go type; two MarshalJSON-emitting features on one message need a conflict check; schema-author text in literals is quoted; field selectors use GoName; every TypeScript variant is lexically well-formed. Full type-checking of holed units for arbitrary descriptors, go vet beyond the typed runtime, and TypeScript typing are not decided.",
       "go/parser and go/types are the Go front end; protoc-gen-go's field type mapping; TypeScript is read lexically only.",
       "DESIGN.md 5/C13")
+
+claim("C20", "shape worlds: mock unit walked per response-field shape and type-checked with the service file and runtime against synthesized protoc-gen-go stand-ins; key-expression comparison; recursion guard (shared with C16)",
+      "Structural: for every response-field shape (kind x singular/optional/oneof-member/repeated) the emitted mock file type-checks together with the service file and the server runtime, and Mock<S>Server implements <S>Server; the example table and the selectors spell keys with the same expression; example text is quoted; the field walker is visited-guarded; file-independent package-level names are reported. Whether mock values satisfy validation rules or response schemas is not decided.",
+      "protoc-gen-go's field type mapping; map-valued response fields are not modelled (key and value of the entry would share one shape).",
+      "DESIGN.md 5/C20")
